@@ -9,6 +9,7 @@
 -/
 import FB.Props.C05Nested
 import FB.Props.C05Whole
+import FB.Lemmas.Hashable
 namespace FB
 open FS Spec Impl
 
@@ -152,7 +153,6 @@ theorem filterMap_unique {α β : Type} (f : α → Option β) (l : List α) (h 
 theorem cachedIn_nested (ops : List Op) (hok : okDeepL ops = true)
     (hnd : (targetsDeepL ops).Pairwise (· ≠ ·))
     (hkeys : (subKeysDeepL ops).Pairwise (fun x y => heq x y = false ∧ heq y x = false))
-    (hrefl : ∀ key ∈ subKeysDeepL ops, heq key key = true)
     (rec : CacheRec) (hroots : rec.roots = ops.filter isComplexRegistered) :
     ∀ o ∈ ops, okTop o = true → cachedIn rec o := by
   intro o ho hoko
@@ -186,7 +186,7 @@ theorem cachedIn_nested (ops : List Op) (hok : okDeepL ops = true)
     have hkmem : subKey f a k ∈ subKeysDeepL ops := List.mem_filterMap.mpr ⟨_, hmem, rfl⟩
     apply find_unique
     · exact List.mem_reverse.mpr hmem
-    · simp only [Op.isSubWith]; exact hrefl _ hkmem
+    · simp only [Op.isSubWith]; exact heq_refl _
     · intro y hy hp
       have hy' := List.mem_reverse.mp hy
       cases y with
@@ -541,6 +541,215 @@ theorem outputs_eq_targetsDeep (n : String) (ops : List Op) (hok : okDeepL ops =
     subst h1 h2
     rfl
 
+def keysOfL (l : List Op) : List H := l.filterMap keyOf
+
+theorem subKeysDeepL_cons (o : Op) (os : List Op) : subKeysDeepL (o :: os) = keysOfL (registered o) ++ subKeysDeepL os := by
+  simp [subKeysDeepL, keysOfL, registeredL, List.filterMap_append]
+
+theorem keys_bfRecord (path : Path) (cmp : Cmp) (fname : String) (args kwargs : Json) (subs : List Op)
+    (rb r' : CallRes) (s3 : KSt) :
+    keysOfL (registered (bfRecord path cmp fname args kwargs subs rb r' s3)) = subKeysDeepL subs := by
+  unfold bfRecord
+  cases r' <;> simp [registered, keysOfL, subKeysDeepL, List.filterMap_append, keyOf]
+
+theorem keys_sbRecord_ok (fname : String) (args kwargs : Json) (subs : List Op) (j : Json) :
+    keysOfL (registered (sbRecord fname args kwargs subs (.ok j))) = subKeysDeepL subs ++ [subKey fname args kwargs] := by
+  simp [sbRecord, registered, keysOfL, subKeysDeepL, List.filterMap_append, keyOf]
+
+theorem registeredL_append (a b : List Op) : registeredL (a ++ b) = registeredL a ++ registeredL b := by
+  induction a with
+  | nil => simp [registeredL]
+  | cons x r ih => simp [registeredL, ih]
+
+/-- the relation "different keys" -/
+def KeyNe (x y : H) : Prop := heq x y = false ∧ heq y x = false
+
+structure RunKeys (s s2 : KSt) (ops : List Op) : Prop where
+  fresh : ∀ k ∈ subKeysDeepL ops, s.sp.claimedSubs.any (heq k) = false
+  claimed : ∀ k ∈ subKeysDeepL ops, s2.sp.claimedSubs.any (heq k) = true
+  pw : (subKeysDeepL ops).Pairwise KeyNe
+  mono : ∀ k, s.sp.claimedSubs.any (heq k) = true → s2.sp.claimedSubs.any (heq k) = true
+
+theorem RunKeys.nil (s : KSt) : RunKeys s s [] :=
+  ⟨fun k hk => by simp [subKeysDeepL, registeredL] at hk, fun k hk => by simp [subKeysDeepL, registeredL] at hk,
+   by simp [subKeysDeepL, registeredL], fun _ h => h⟩
+
+theorem RunKeys.congr {s s2 : KSt} {ops ops' : List Op} (h : subKeysDeepL ops' = subKeysDeepL ops) (hr : RunKeys s s2 ops) :
+    RunKeys s s2 ops' :=
+  ⟨by rw [h]; exact hr.fresh, by rw [h]; exact hr.claimed, by rw [h]; exact hr.pw, hr.mono⟩
+
+/-- two runs one after the other -/
+theorem RunKeys.append {a b c : KSt} {o1 o2 : List Op} {ks : List H}
+    (hk : ks = subKeysDeepL o1 ++ subKeysDeepL o2) (h1 : RunKeys a b o1) (h2 : RunKeys b c o2) :
+    (∀ k ∈ ks, a.sp.claimedSubs.any (heq k) = false) ∧ (∀ k ∈ ks, c.sp.claimedSubs.any (heq k) = true) ∧ ks.Pairwise KeyNe := by
+  subst hk
+  refine ⟨?_, ?_, ?_⟩
+  · intro k hk
+    rcases List.mem_append.mp hk with hk | hk
+    · exact h1.fresh k hk
+    · cases hc : a.sp.claimedSubs.any (heq k) with
+      | false => rfl
+      | true => have := h1.mono k hc; rw [h2.fresh k hk] at this; cases this
+  · intro k hk
+    rcases List.mem_append.mp hk with hk | hk
+    · exact h2.mono k (h1.claimed k hk)
+    · exact h2.claimed k hk
+  · rw [List.pairwise_append]
+    refine ⟨h1.pw, h2.pw, ?_⟩
+    intro x hx y hy
+    -- `y` is fresh with respect to the claims after the first run, among which there is a key `heq` to `x`
+    have hxc := h1.claimed x hx
+    have hyf := h2.fresh y hy
+    obtain ⟨c0, hc0, hxc0⟩ := List.any_eq_true.mp hxc
+    have hyc0 : heq y c0 = false := by
+      cases hh : heq y c0 with
+      | false => rfl
+      | true => have := List.any_eq_true.mpr ⟨c0, hc0, hh⟩; rw [hyf] at this; cases this
+    constructor
+    · cases hh : heq x y with
+      | false => rfl
+      | true =>
+        have h1' : heq y x = true := by rw [heq_symm]; exact hh
+        have := heq_trans y x c0 h1' hxc0
+        rw [hyc0] at this; cases this
+    · cases hh : heq y x with
+      | false => rfl
+      | true =>
+        have := heq_trans y x c0 hh hxc0
+        rw [hyc0] at this; cases this
+
+theorem any_cons_heq (k key : H) (l : List H) : (key :: l).any (heq k) = (heq k key || l.any (heq k)) := by
+  simp [List.any_cons]
+
+/-- **in a run in which every call succeeded, the keys of the subbuild records are pairwise different** (at every
+    depth): a key is claimed before its function starts, and a claimed key is refused -/
+theorem run_keys (prog : Prog) : ∀ (t : Option Path) (s : KSt), s.old.roots = [] → s.sp.failFiles = [] →
+    s.sp.failSubs = [] → okDeepL (Impl.run prog t s).2.2 = true →
+    RunKeys s (Impl.run prog t s).2.1 (Impl.run prog t s).2.2 := by
+  induction prog with
+  | ret v => intro t s _ _ _ _; simp only [Impl.run]; split <;> exact RunKeys.nil s
+  | raise e => intro t s _ _ _ _; simp only [Impl.run]; exact RunKeys.nil s
+  | query q k ih =>
+    intro t s h0 h1 h2 hok
+    simp only [Impl.run] at hok ⊢
+    rw [okDeepL_cons, Bool.and_eq_true] at hok
+    have := ih _ t s h0 h1 h2 hok.2
+    cases hrv : View.recVal s.sp.dirSize (visible s.sp) q with
+    | ok v => simp only; exact this.congr (by rw [subKeysDeepL_cons]; simp [registered, keysOfL])
+    | error e => simp only; exact this.congr (by rw [subKeysDeepL_cons]; simp [registered, keysOfL])
+  | write b mt k ih =>
+    intro t s h0 h1 h2 hok
+    simp only [Impl.run] at hok ⊢
+    cases t with
+    | none => exact ih none s h0 h1 h2 hok
+    | some p =>
+      have := ih (some p) (liftSp s fun sp => { sp with pending := (p, b, mt.getD sp.clock) :: sp.pending, clock := sp.clock + 1 }) h0 h1 h2 hok
+      exact ⟨this.fresh, this.claimed, this.pw, this.mono⟩
+  | buildFile path cmp fname args kwargs body k ihb ihk =>
+    intro t s h0 h1 h2 hok
+    cases hsetup : bfSetup s.sp path with
+    | error e =>
+      exfalso
+      have := run_bf_setupfail s t path cmp fname args kwargs body k e hsetup
+      cases hops : (Impl.run (.buildFile path cmp fname args kwargs body k) t s).2.2 with
+      | nil => rw [hops] at this; cases this
+      | cons o os =>
+        rw [hops] at this hok
+        simp only [List.head?_cons, Option.some.injEq] at this
+        subst this
+        simp [okDeepL, okDeep] at hok
+    | ok x =>
+      obtain ⟨sp1, made⟩ := x
+      obtain ⟨hsp1, _, _, _, _, _⟩ := bfSetup_ok_fields s.sp sp1 path made hsetup
+      have hlook := lookupFile_empty (afterSetup s sp1 path made) h0 path cmp fname args kwargs made
+      rw [run_bf_miss s t path cmp fname args kwargs body k sp1 made hsetup hlook] at hok ⊢
+      simp only at hok ⊢
+      have hk1ff : (missStart (afterSetup s sp1 path made) path ⟨fname, some path, args, kwargs⟩).sp.failFiles = [] := by
+        show sp1.failFiles = []; rw [hsp1]; exact h1
+      have hk1fs : (missStart (afterSetup s sp1 path made) path ⟨fname, some path, args, kwargs⟩).sp.failSubs = [] := by
+        show sp1.failSubs = []; rw [hsp1]; exact h2
+      have hkb := run_keeps body (some path) (missStart (afterSetup s sp1 path made) path ⟨fname, some path, args, kwargs⟩) h0 hk1ff hk1fs
+      have ihb' := ihb (some path) (missStart (afterSetup s sp1 path made) path ⟨fname, some path, args, kwargs⟩) h0 hk1ff hk1fs
+      generalize hout : Impl.run body (some path) (missStart (afterSetup s sp1 path made) path ⟨fname, some path, args, kwargs⟩) = out
+        at hok hkb ihb' ⊢
+      rw [okDeepL_cons, Bool.and_eq_true] at hok
+      obtain ⟨⟨⟨j, hj⟩, hoksubs⟩, hokrest⟩ := And.intro (okDeep_bfRecord _ _ _ _ _ _ _ _ _ hok.1) hok.2
+      obtain ⟨c, m, _, _, hfinOk⟩ := bfFinish_ok_inv out.2.1.sp path made out.1 j hj
+      have hb := ihb' hoksubs
+      obtain ⟨_, hk2, hk3⟩ := bfFinish_keeps out.2.1.sp path made out.1
+      have hkk := ihk (bfFinish out.2.1.sp path made out.1).1 t (withSp out.2.1 (bfFinish out.2.1.sp path made out.1).2)
+        (by show out.2.1.old.roots = []; rw [hkb.old]; exact h0)
+        (by show (bfFinish _ path made out.1).2.failFiles = []; rw [hk2]; exact hkb.ff)
+        (by show (bfFinish _ path made out.1).2.failSubs = []; rw [hk3]; exact hkb.fsb) hokrest
+      -- the claims are those of the state the function started in resp. ended in
+      have hcs1 : (missStart (afterSetup s sp1 path made) path ⟨fname, some path, args, kwargs⟩).sp.claimedSubs = s.sp.claimedSubs := by
+        show sp1.claimedSubs = _; rw [hsp1]; rfl
+      have hcs3 : (withSp out.2.1 (bfFinish out.2.1.sp path made out.1).2).sp.claimedSubs = out.2.1.sp.claimedSubs := by
+        show (bfFinish _ path made out.1).2.claimedSubs = _; rw [hfinOk]; rfl
+      have hb' : RunKeys s out.2.1 out.2.2 := ⟨by rw [← hcs1]; exact hb.fresh, hb.claimed, hb.pw, by rw [← hcs1]; exact hb.mono⟩
+      have hkk' : RunKeys out.2.1 (Impl.run (k (bfFinish out.2.1.sp path made out.1).1) t (withSp out.2.1 (bfFinish out.2.1.sp path made out.1).2)).2.1
+          (Impl.run (k (bfFinish out.2.1.sp path made out.1).1) t (withSp out.2.1 (bfFinish out.2.1.sp path made out.1).2)).2.2 :=
+        ⟨by rw [← hcs3]; exact hkk.fresh, hkk.claimed, hkk.pw, by rw [← hcs3]; exact hkk.mono⟩
+      obtain ⟨a1, a2, a3⟩ := RunKeys.append (ks := subKeysDeepL (bfRecord path cmp fname args kwargs out.2.2 out.1 (bfFinish out.2.1.sp path made out.1).1
+          (withSp out.2.1 (bfFinish out.2.1.sp path made out.1).2) :: (Impl.run (k (bfFinish out.2.1.sp path made out.1).1) t (withSp out.2.1 (bfFinish out.2.1.sp path made out.1).2)).2.2))
+        (by rw [subKeysDeepL_cons, keys_bfRecord]) hb' hkk'
+      exact ⟨a1, a2, a3, fun k hk => hkk'.mono k (hb'.mono k hk)⟩
+  | subbuild fname args kwargs body k ihb ihk =>
+    intro t s h0 h1 h2 hok
+    have hfs : s.sp.failSubs.any (heq (subKey fname args kwargs)) = false := by simp [h2]
+    by_cases hcl : s.sp.claimedSubs.any (heq (subKey fname args kwargs)) = true
+    · exfalso
+      simp only [Impl.run, hcl, if_true] at hok
+      simp [okDeepL, okDeep] at hok
+    · have hcl0 : s.sp.claimedSubs.any (heq (subKey fname args kwargs)) = false := by simpa using hcl
+      have hlook := lookupSub_empty (subClaim s (subKey fname args kwargs)) h0 fname args kwargs
+      rw [run_sb_miss' s t fname args kwargs body k hcl0 hfs hlook] at hok ⊢
+      simp only at hok ⊢
+      have hkb := run_keeps body none (Impl.subStart (subClaim s (subKey fname args kwargs)) ⟨fname, none, args, kwargs⟩) h0 h1 h2
+      have ihb' := ihb none (Impl.subStart (subClaim s (subKey fname args kwargs)) ⟨fname, none, args, kwargs⟩) h0 h1 h2
+      generalize hout : Impl.run body none (Impl.subStart (subClaim s (subKey fname args kwargs)) ⟨fname, none, args, kwargs⟩) = out
+        at hok hkb ihb' ⊢
+      rw [okDeepL_cons, Bool.and_eq_true] at hok
+      obtain ⟨⟨j, hj⟩, hoksubs⟩ := okDeep_sbRecord _ _ _ _ _ hok.1
+      have hb := ihb' hoksubs
+      have hkk := ihk out.1 t out.2.1 (by rw [hkb.old]; exact h0) hkb.ff hkb.fsb hok.2
+      have hcs1 : (Impl.subStart (subClaim s (subKey fname args kwargs)) ⟨fname, none, args, kwargs⟩).sp.claimedSubs =
+          subKey fname args kwargs :: s.sp.claimedSubs := rfl
+      -- the run of the function together with the claim of its key, as a run from `s`
+      have hkeyc : out.2.1.sp.claimedSubs.any (heq (subKey fname args kwargs)) = true :=
+        hb.mono _ (by rw [hcs1, any_cons_heq, heq_refl]; rfl)
+      have hb' : RunKeys s out.2.1 (out.2.2 ++ [Op.subbuild fname args kwargs [] .null false false]) := by
+        have hkeys : subKeysDeepL (out.2.2 ++ [Op.subbuild fname args kwargs [] .null false false]) =
+            subKeysDeepL out.2.2 ++ [subKey fname args kwargs] := by
+          simp [subKeysDeepL, registeredL_append, registeredL, registered, List.filterMap_append, keyOf]
+        refine ⟨?_, ?_, ?_, ?_⟩
+        · intro k hk
+          rw [hkeys] at hk
+          rcases List.mem_append.mp hk with hk | hk
+          · have := hb.fresh k hk
+            rw [hcs1, any_cons_heq, Bool.or_eq_false_iff] at this
+            exact this.2
+          · simp only [List.mem_singleton] at hk; subst hk; exact hcl0
+        · intro k hk
+          rw [hkeys] at hk
+          rcases List.mem_append.mp hk with hk | hk
+          · exact hb.claimed k hk
+          · simp only [List.mem_singleton] at hk; subst hk; exact hkeyc
+        · rw [hkeys, List.pairwise_append]
+          refine ⟨hb.pw, by simp, ?_⟩
+          intro x hx y hy
+          simp only [List.mem_singleton] at hy; subst hy
+          have := hb.fresh x hx
+          rw [hcs1, any_cons_heq, Bool.or_eq_false_iff] at this
+          exact ⟨this.1, by rw [heq_symm]; exact this.1⟩
+        · intro k hk
+          exact hb.mono k (by rw [hcs1, any_cons_heq, hk]; simp)
+      obtain ⟨a1, a2, a3⟩ := RunKeys.append (ks := subKeysDeepL (sbRecord fname args kwargs out.2.2 out.1 :: (Impl.run (k out.1) t out.2.1).2.2))
+        (by
+          rw [subKeysDeepL_cons, hj, keys_sbRecord_ok]
+          simp [subKeysDeepL, registeredL_append, registeredL, registered, List.filterMap_append, keyOf]) hb' hkk
+      exact ⟨a1, a2, a3, fun k hk => hkk.mono k (hb'.mono k hk)⟩
+
 theorem okTop_of_okDeep (o : Op) (h : okDeep o = true) : okTop o = true := by
   cases o with
   | simple _ _ _ _ => rfl
@@ -569,8 +778,6 @@ theorem C05_nested_rebuild (w : KWorld) (cf : Path) (name : String) (versions : 
     (v : Json) (s2 : KSt) (ops : List Op)
     (hrun : Impl.run prog none (Impl.buildStart w cf versions [] [] (noRec name versions) cds) = (.ok v, s2, ops))
     (hok : okDeepL ops = true) (hanti : Antichain (targetsDeepL ops))
-    (hkeys : (subKeysDeepL ops).Pairwise (fun x y => heq x y = false ∧ heq y x = false))
-    (hrefl : ∀ key ∈ subKeysDeepL ops, heq key key = true)
     (hargs : ∀ o ∈ ops, argsRefl o = true)
     (hfresh : ∀ k, (k ∈ s2.sp.claimedFiles ∨ k ∈ s2.sp.createdDirs ∨ k ∈ cds ∨ k = cf) → w.fs.get k = none)
     (hdirs : ∀ d, (d ∈ s2.sp.createdDirs ∨ d ∈ cds) → s2.sp.fs.isDir d = true ∧ d ≠ cf)
@@ -702,7 +909,10 @@ theorem C05_nested_rebuild (w : KWorld) (cf : Path) (name : String) (versions : 
   have hsame : Same (Impl.buildStart w cf versions [] [] (noRec name versions) cds)
       (Impl.buildStart w1 cf versions [] [] (writtenRec name versions ops s2 cds) cds) :=
     ⟨by rw [hs1'fs, hs1fs], rfl, hw1ds, rfl, rfl, rfl, rfl, rfl, rfl, rfl⟩
-  have hcached := cachedIn_nested ops hok (hanti.imp (fun h => h.1)) hkeys hrefl
+  have hkeys : (subKeysDeepL ops).Pairwise (fun x y => heq x y = false ∧ heq y x = false) := by
+    have := (run_keys prog none _ hold0 rfl rfl (by rw [hr2]; exact hok)).pw
+    rw [hr2] at this; exact this
+  have hcached := cachedIn_nested ops hok (hanti.imp (fun h => h.1)) hkeys
     (writtenRec name versions ops s2 cds) rfl
   have hsecond := nested_second_run prog none _ _ s2 hold0 hsame
     (fun f _ => by
@@ -763,8 +973,6 @@ example : (Impl.build fxW ["c"] "n" [] nRoot).res = .ok .null ∧
     (by simp [fxW, FS.get]) [] hcds .null _ _ hrun
     (by rw [hops]; simp [okDeepL, okDeep])
     (by rw [hops]; simp [targetsDeepL, targetsDeep, Antichain])
-    (by rw [hops]; simp [subKeysDeepL, registeredL, registered, keyOf, List.filterMap])
-    (by rw [hops]; simp [subKeysDeepL, registeredL, registered, keyOf, List.filterMap, FB.heq, FB.heqL, subKey, toH, toHL, Num.eq])
     (by rw [hops]; intro o ho; simp at ho; subst ho; rfl)
     (by
       intro k hk
